@@ -221,6 +221,15 @@ let op_ansi_strings = function
       "OK\t" ^ S.concat " " (L.map string_of_tok toks) ^ "\t" ^ (if fin = AnsiTerm.plain && cells = l then "balanced" else "UNBALANCED")
   | _ -> "BADARGS"
 
+(* vte_strip hex(bytes) : which bytes are text *)
+let op_vte_strip = function
+  | [ h ] ->
+      let b = hex_decode h in
+      let l = L.init (S.length b) (fun i -> n_of_int (Char.code (S.get b i))) in
+      let out = Vte.strip l in
+      "OK\t" ^ hex_encode (S.init (L.length out) (fun i -> Char.chr (int_of_n (L.nth out i))))
+  | _ -> "BADARGS"
+
 (* blame_run n keys gitflags *)
 let op_blame_run = function
   | [ n; keys; flags ] ->
@@ -241,6 +250,7 @@ let op_blame_spec = function
   | _ -> "BADARGS"
 
 let dispatch = function
+  | "vte_strip" :: args -> op_vte_strip args
   | "style_parse" :: args -> op_style_parse args
   | "style_display" :: args -> op_style_display args
   | "ansi_strings" :: args -> op_ansi_strings args
